@@ -103,6 +103,11 @@ example : (roundTripModule sample).map (·.names) =
     some (some { module := some "m", funcs := [(0, "big"), (1, "small")], locals := [(0, [(0, "used")])] }) := by
   decide
 
+/-- a function named twice keeps its last name; the written map has one entry per index -/
+example : (roundTripModule { sample with names := some { funcs := [(0, "a"), (0, "b"), (1, "c")] } }).map (·.names) =
+    some (some { funcs := [(0, "c"), (1, "b")] }) := by
+  decide
+
 /-- **several name sections**: the later section's name for an entity wins, and an entity the later
     section does not name keeps the name the earlier section gave it (stated for globals; the other
     index spaces are the same field-wise append) -/
@@ -123,6 +128,27 @@ theorem giving_up_is_per_section (nF : Nat) (s1 s2 : NamesM) (i : Nat) (x : Stri
     (h : lastName (appliedNames nF s2).globals i = some x) :
     lastName (appliedNameSections nF [s1, s2]).globals i = some x := by
   simp [appliedNameSections, mergeNames, lastName_append, h]
+
+/-- **one name per function index**: the function-name map that is written never has two entries
+    for one function index — two named functions of the input never land on the same index (the
+    id → index map of the emission is injective), and a function named several times keeps its
+    last name only. A name map with a repeated index would be malformed. -/
+theorem function_name_map_has_one_entry_per_index (m o : ModuleM) (h : roundTripModule m = some o)
+    (no : NamesM) (hno : o.names = some no) : (no.funcs.map (·.1)).Nodup := by
+  obtain ⟨ρ, _, _, hnames, _, hinj⟩ := (roundTrip_components m o h).funcRenaming
+  obtain ⟨n, _, _, hf, _⟩ := hnames no hno
+  rw [hf]
+  exact funcNamesOut_nodup n.funcs ρ hinj
+
+/-- … and so have the table, memory, global, element-segment and data-segment name maps -/
+theorem other_name_maps_have_one_entry_per_index (m o : ModuleM) (h : roundTripModule m = some o)
+    (no : NamesM) (hno : o.names = some no) :
+    (no.tables.map (·.1)).Nodup ∧ (no.mems.map (·.1)).Nodup ∧ (no.globals.map (·.1)).Nodup ∧
+    (no.elems.map (·.1)).Nodup ∧ (no.datas.map (·.1)).Nodup := by
+  obtain ⟨ρ, _, _, hnames, _, _⟩ := (roundTrip_components m o h).funcRenaming
+  obtain ⟨n, _, _, _, ht, hm, hg, he, hd⟩ := hnames no hno
+  rw [ht, hm, hg, he, hd]
+  exact ⟨keepNames_nodup _, keepNames_nodup _, keepNames_nodup _, keepNames_nodup _, keepNames_nodup _⟩
 
 /-- one section alone: exactly `appliedNames` -/
 theorem single_section (nF : Nat) (s : NamesM) : appliedNameSections nF [s] = appliedNames nF s := by
